@@ -119,7 +119,7 @@ def _sealed_variant(c):
 def worker(arg):
     import pydsdl
     block, seed, mod = arg
-    if mod > 1 and hash(block) % mod:
+    if not core.sampled(block, mod):
         return None
     st = tlaval.parse_state_block(block)
     c, out = dict(st["case"]), st["out"]
